@@ -23,8 +23,10 @@ func emitInjectCode(repo string) (string, error) {
 			"(reflect.Value).IsValid":   "Lib.RVal_IsValid",
 			"(reflect.Type).Kind":       "Lib.Ty_Kind U",
 			"(reflect.Type).Implements": "Lib.Ty_Implements U",
+			"reflect.TypeOf":            "tyOf",
+			"reflect.ValueOf":           "Lib.reflect_ValueOf",
 		},
-		prelude: "variable (U : Flamego.Inject.Universe)\n",
+		prelude: "variable (U : Flamego.Inject.Universe)\n-- `reflect.TypeOf` of a value the caller passes: which type of the universe it has\nvariable (tyOf : Any → Lib.Ty)\n",
 		skip:    map[string]string{},
 	})
 }
